@@ -56,10 +56,17 @@ func (d *Data) NewArbSliceFromStrings(tlStr, trStr, blStr, resStr, sep string) (
 // The 3d points are in real world space definited by resolution, e.g., nanometer space.
 func (d *Data) NewArbSlice(topLeft, topRight, bottomLeft dvid.Vector3d, res float64) (*ArbSlice, error) {
 	// Compute the increments in x,y and number of pixels in each direction.
+	if !(res > 0) || math.IsInf(res, 0) {
+		return nil, fmt.Errorf("resolution of arbitrary image must be a positive number, got %v", res)
+	}
 	dx := topRight.Distance(topLeft)
 	dy := bottomLeft.Distance(topLeft)
 	nxFloat := math.Floor(dx / res)
 	nyFloat := math.Floor(dy / res)
+	// (also false for NaN) keep the pixel counts and their product within int32
+	if !(nxFloat >= 0 && nyFloat >= 0 && (nxFloat+1)*(nyFloat+1) <= math.MaxInt32) {
+		return nil, fmt.Errorf("bad arbitrary image size requested: %v x %v pixels", nxFloat+1, nyFloat+1)
+	}
 	incrX := topRight.Subtract(topLeft).DivideScalar(nxFloat)
 	incrY := bottomLeft.Subtract(topLeft).DivideScalar(nyFloat)
 	size := dvid.Point2d{int32(nxFloat) + 1, int32(nyFloat) + 1}
